@@ -184,6 +184,9 @@ pub enum Op {
     Schedule { exec: Id, task: Id, pendings: u32, script: Vec<Vec<Op>> },
     Wake(Id),
     StreamPush(Id),
+    /// a backlog: n items at once (around and beyond any per-dispatch batch bound), optionally
+    /// followed by the end of the stream
+    StreamPushMany(Id, u32, bool),
     StreamEnd(Id),
     // ---- transient
     TrRemove(Id),
@@ -207,6 +210,11 @@ pub enum Op {
     TakeSource(Id),
     DropDispatcher(Id),
     DropLoop,
+    /// after DropLoop: a fresh EventLoop; everything the program still holds (kept
+    /// dispatchers, ping and channel handles) outlived the first one
+    NewLoop,
+    /// register a kept Dispatcher (of a source that is not inserted) again, in the current loop
+    ReinsertKept(Id),
     // ---- scripted wrapper failures: make the n-th next call of the source's
     // register(1)/reregister(2)/unregister(3)/process_events(4)/before_sleep(5) fail
     FailNext { id: Id, what: u8, nth: u32 },
@@ -340,6 +348,7 @@ impl Op {
             Op::Schedule { .. } => "Schedule",
             Op::Wake(_) => "Wake",
             Op::StreamPush(_) => "StreamPush",
+            Op::StreamPushMany(..) => "StreamPushMany",
             Op::StreamEnd(_) => "StreamEnd",
             Op::TrRemove(_) => "TrRemove",
             Op::TrReplace(..) => "TrReplace",
@@ -357,6 +366,8 @@ impl Op {
             Op::TakeSource(_) => "TakeSource",
             Op::DropDispatcher(_) => "DropDispatcher",
             Op::DropLoop => "DropLoop",
+            Op::NewLoop => "NewLoop",
+            Op::ReinsertKept(_) => "ReinsertKept",
             Op::FailNext { .. } => "FailNext",
             Op::SigNew { .. } => "SigNew",
             Op::SigAdd(..) => "SigAdd",
